@@ -70,8 +70,10 @@ SAN_ENV = {
         "ABT_THREAD_STACKSIZE": "262144",
         "ABT_SCHED_STACKSIZE": "4194304",
     },
-    "mon": {"ABT_THREAD_STACKSIZE": "65536"},
-    "ubassert": {"ABT_THREAD_STACKSIZE": "65536"},
+    # MALLOC_PERTURB_: glibc fills fresh and freed heap memory with a non-zero byte, so reads of
+    # uninitialised or freed memory misbehave deterministically instead of by luck
+    "mon": {"ABT_THREAD_STACKSIZE": "65536", "MALLOC_PERTURB_": "165"},
+    "ubassert": {"ABT_THREAD_STACKSIZE": "65536", "MALLOC_PERTURB_": "165"},
 }
 
 
@@ -342,7 +344,7 @@ class Check:
             env["TSAN_OPTIONS"] = env["TSAN_OPTIONS"] + ":log_path=" + logbase
         cmd = [binp] + run.args
         run.cmd = cmd
-        run.fullenv = {k: env[k] for k in env if k.startswith(("ABT_", "ASAN_", "TSAN_", "UBSAN_", "LSAN_", "VERIF_"))}
+        run.fullenv = {k: env[k] for k in env if k.startswith(("ABT_", "ASAN_", "TSAN_", "UBSAN_", "LSAN_", "VERIF_", "MALLOC_"))}
         t = time.time()
         scale = {"asan": 3, "tsan": 6}.get(run.variant, 1)
         try:
